@@ -524,7 +524,7 @@ def next_statement(
     if state.pos == state.max:
         return False  # break parent loop
 
-    if state.line[state.pos] in "#\r\n":  # skip comments or blank lines
+    if state.line[state.pos] in "#\n" or state.line[state.pos :] in ("\r\n", "\r"):  # skip comments or blank lines
         if state.line[state.pos] == "#":
             comment_token = state.line[state.pos :].rstrip("\r\n")
             yield TokenInfo(
